@@ -25,6 +25,18 @@ CHECKS = {
         note="At this level the parse function is uninterpreted (made concrete by the reference run of the real code); what "
              "the items must be is decided by the format grammars under C06/C07. Trusted: TLC, the scheduled source.",
         technique="TLA+ reader model (TLC) + trace validation of recorded parser runs against ParserContract (schedule independence)"),
+    "C03": dict(
+        category="model_checking",
+        text="Values of every format are written by the real writers and parsed by the real parsers; ParserContract requires "
+             "a clean end and exactly the value's items, and the written bytes must also read back under the independent "
+             "TLA+ specifications (AigerRef reference reading with arbitrary-precision numerals incl. every delta-code "
+             "length; the Dimacs token machine). Accepted texts are parsed, written and parsed again and must return the "
+             "same items. The buffered writer underneath is model-checked (MC_Writer), the decimal arithmetic of the "
+             "oracles in MC_Digits.",
+        design_ref="DESIGN.md §5 C03, §7",
+        note="Domain per DESIGN §7 (names without LF, symbols without blanks, ...). BTOR2 round trips are held to the contract "
+             "(value in = value out) without an independent reference reading. Values are sampled, not enumerated.",
+        technique="round-trip traces validated against ParserContract expectations, AigerRef and the Dimacs machine (TLC)"),
     "C04": dict(
         category="model_checking",
         text="The reader model explores every fault offset (error parked, complete, reported exactly once); every input is "
